@@ -404,8 +404,16 @@ func vfC09Run(t *testing.T, c *vfC09Case) (violation string, trace []string, cla
 				led.restarted()
 				trace = append(trace, fmt.Sprintf("t=%s RESTART with configured anchors %v -> live %s", since(), configured, describe()))
 				classes["restart"] = true
-				// (a configured key that was revoked earlier is republished by NewResolver until the first refresh
-				// filters it; the property speaks of what AutoTA publishes, so the check waits for that refresh)
+				// "never published again, not after restarts nor by configuration that still lists it" holds from the
+				// first moment: what NewResolver loads is live until the first refresh gets to run
+				if !led.storeDamaged {
+					for m := range live() {
+						if at, ok := led.revokedAt[m]; ok {
+							fail("step %d: after the restart %s is a live trust anchor again; its revocation was accepted at t=%s and configuration still lists it", si, name(m), at.Sub(vfworld.Epoch).Round(time.Hour))
+						}
+					}
+					classes["restart-window-judged"] = true
+				}
 				continue
 			case "setpub":
 				pub = st.Pub
@@ -557,6 +565,13 @@ func vfC09Run(t *testing.T, c *vfC09Case) (violation string, trace []string, cla
 				r = NewResolver(mkcfg(configured))
 				led.restarted()
 				classes["crash-then-restart"] = true
+				if !led.storeDamaged {
+					for m := range live() {
+						if at, ok := led.revokedAt[m]; ok {
+							fail("step %d: after the crash and restart %s is a live trust anchor again; a record of its revocation (accepted at t=%s) had reached the disk", si, name(m), at.Sub(vfworld.Epoch).Round(time.Hour))
+						}
+					}
+				}
 				continue
 			}
 			after := live()
